@@ -1053,3 +1053,26 @@ Proof.
   destruct (find_ci_in key ms x Hf) as (k & Hin). pose proof (depth_le_len _ bs He') as Hd. cbn [depth] in Hd.
   pose proof (fold_max_ge (fun m => depth (snd m)) ms (k, x) Hin) as Hge. cbn beta in Hge. cbn [snd] in Hge. lia.
 Qed.
+
+(* jbl_size of a document is the length of its buffer, which is the size the guard predicts *)
+Theorem size_doc : forall v bs, wf v = true -> binn_encode v = Some bs ->
+  exists b, root_bval bs = Some b /\ jbl_size b = zlen bs /\ zlen bs = enc_size v.
+Proof.
+  intros v bs Hw He. destruct (root_repr v bs Hw He) as (b & Hroot & R & He').
+  exists b. split; [assumption|].
+  assert (Hl : zlen bs < 2147483648).
+  { destruct (enc_container_inv v bs) as (ty & size & count & body & _ & <- & Hr & _); [destruct v; try discriminate; eauto|assumption|lia]. }
+  destruct (enc_success_guard v bs He' Hl) as (_ & _ & Hsz). split; [|exact Hsz].
+  unfold root_bval in Hroot. destruct (zlen bs <? jbinn_MIN_BINN_SIZE); [discriminate|].
+  destruct (read_hdr bs) as [[[[ty size] count] hs]|] eqn:Eh; [|discriminate].
+  destruct (size >? zlen bs) eqn:Es; [discriminate|]. injection Hroot as <-. unfold jbl_size. cbn [bsize].
+  destruct (enc_container_inv v bs) as (ty' & size' & count' & body & Hbs & Hs' & Hr & Hk); [destruct v; try discriminate; eauto|assumption|].
+  assert (Hty : ty' = jbinn_BINN_LIST \/ ty' = jbinn_BINN_OBJECT) by (destruct Hk as [[-> _]|[-> _]]; tauto).
+  assert (Hcnt : 0 <= count' < 2147483648).
+  { destruct Hk as [(_ & l & bxs & _ & Hx & Hb & ->)|(_ & l & bxs & _ & Hx & Hb & ->)].
+    - destruct (arr_encs_len _ _ Hx) as [L1 L2]. pose proof (count_bound l bxs L1 L2). pose proof (zlen_nonneg l).
+      rewrite Hbs, zlen_cons, !zlen_app in Hl. pose proof (zlen_nonneg (wr_field size')). pose proof (zlen_nonneg (wr_field (zlen l))). subst body. lia.
+    - destruct (obj_encs_len _ _ Hx) as [L1 L2]. pose proof (count_bound l bxs L1 L2). pose proof (zlen_nonneg l).
+      rewrite Hbs, zlen_cons, !zlen_app in Hl. pose proof (zlen_nonneg (wr_field size')). pose proof (zlen_nonneg (wr_field (zlen l))). subst body. lia. }
+  rewrite Hbs in Eh. rewrite (read_hdr_saved ty' size' count' body Hty ltac:(lia) Hcnt) in Eh. injection Eh as _ <- _ _. exact Hs'.
+Qed.
